@@ -89,6 +89,29 @@ def order_plan(plan):
     return [e for e in plan if e['a'] == 'write'] + [e for e in plan if e['a'] != 'write']
 
 
+def add_binary_stdout_in_resumed_layers(spec, seed):
+    """Tests of layers that are resumed in subprocesses write bytes to their stdout that are not
+    valid UTF-8 (binary data, Latin-1 text; whole lines - the summary parsers of the oracles are
+    line based): neither the verdict nor the totals depend on them."""
+    world = spec['world']
+    m = W.Model(world)
+    srng = random.Random(seed ^ 0xB17E5)
+    cands = [L['name'] for L in world['layers'] if m.has_hook(L['name'], 'tearDown')]
+    disc = [d for d in m.discover() if C.test_phases(d) and not d['t'].get('doctest')]
+    if not (cands and disc) or spec['opt'].get('j'):
+        return
+    if not any(e.get('exc') == 'NotImplementedError' for e in spec['plan']):
+        spec['plan'].append({'site': 'layer.tearDown', 'ident': srng.choice(cands),
+                             'a': 'raise', 'exc': 'NotImplementedError', 'where': 'parent'})
+    writes = []
+    for d in srng.sample(disc, min(3, len(disc))):
+        writes.append(C.fault_entry(d, srng.choice(C.test_phases(d)),
+                                    {'a': 'write', 'stream': 'stdout.buffer', 'text': 'caf',
+                                     'hex': srng.choice(['e9206e61ef76650a', 'fffe0080810a',
+                                                         'c3280a', 'e2820a'])}))
+    spec['plan'] = writes + spec['plan']
+
+
 def gen_ws(seed, pid, bias):
     rng = random.Random(seed)
     p = W.profile(**bias.get('profile', {}))
